@@ -1,4 +1,5 @@
 import RedisGoModel.Props.C16CrashAux
+import RedisGoModel.Props.C16
 /-! # C16 — the property's sentence at the entry level, after a crash (partial)
 
     `C16.crash_readAll_prefix_partial`: the history is `hs ++ hu`; when the crash happens everything `hs` wrote is on
@@ -210,6 +211,78 @@ theorem crash_readAll_prefix_partial (segSize : Nat) (md : Option Bytes) (hmd : 
     by_cases hin : start ∈ savedSnaps (hs ++ hu')
     · rw [if_pos hin, if_pos (hcont.mpr hin)]
     · rw [if_neg hin, if_neg (fun h => hin (hcont.mp h))]
+
+/-! ### non-vacuity: a concrete crash that loses the unsynced entry -/
+
+def exHs : List Call := [.save ⟨1, 1, 0⟩ [en 1 1]]
+def exHu : List Call := [.save ⟨0, 0, 0⟩ [en 1 2]]
+
+/-- what is found after the crash: the synced bytes, every sector above them still zero -/
+def exF : Bytes := (syncedWriter 4096 none exHs).tail ++ List.replicate (4096 - 104) 0
+
+theorem exHs_len : (syncedWriter 4096 none exHs).tail.length = 104 := by decide +kernel
+
+theorem exHu_tail : (tailWriter 4096 none exHs exHu).tail =
+    (syncedWriter 4096 none exHs).tail ++ encodeFrame ⟨entryType, crcUpdate (syncedWriter 4096 none exHs).crc (marshalEntry (en 1 2)),
+      some (marshalEntry (en 1 2))⟩ := by decide +kernel
+
+theorem ex_crash_dir : Crash (fileFn (tailWriter 4096 none exHs exHu).tail) (fileFn exF) (syncedWriter 4096 none exHs).tail.length := by
+  rw [exHs_len]
+  refine ⟨?_, fun q => Or.inr ?_⟩
+  · intro o ho
+    rw [exHu_tail, exF]
+    unfold fileFn
+    rw [toNats_append, toNats_append, getD_append_left _ _ _ (by rw [toNats_length, exHs_len]; exact ho),
+      getD_append_left _ _ _ (by rw [toNats_length, exHs_len]; exact ho)]
+  · intro o _ hP
+    rw [exF, fileFn_append_zeros]
+    unfold fileFn
+    rw [List.getD_eq_getElem?_getD, List.getElem?_eq_none (by rw [toNats_length, exHs_len]; exact hP)]
+    rfl
+
+theorem ex_gnoCollision :
+    GNoCollision (syncedWriter 4096 none exHs).tail.length (syncedWriter 4096 none exHs).crc (callsItems exHu) := by
+  rw [exHs_len]
+  unfold GNoCollision
+  have hf : gframesOf (syncedWriter 4096 none exHs).crc (callsItems exHu) =
+      [frameOf ⟨entryType, crcUpdate (syncedWriter 4096 none exHs).crc (marshalEntry (en 1 2)), some (marshalEntry (en 1 2))⟩] := rfl
+  rw [hf]
+  refine ⟨?_, fun _ _ => trivial⟩
+  intro b' hr hne
+  have hlen : (frameOf ⟨entryType, crcUpdate (syncedWriter 4096 none exHs).crc (marshalEntry (en 1 2)),
+      some (marshalEntry (en 1 2))⟩).body.length = 16 := by decide +kernel
+  rcases reverted_one_sector (104 + 8) _ b' (by intro i hi; rw [hlen] at hi; omega) hr with h | h
+  · exact absurd h hne
+  · rw [h, hlen]
+    decide +kernel
+
+/-- **non-vacuity** of `crash_readAll_prefix_partial`: every hypothesis (`GNoCollision` included) holds for this
+    directory, and a restarting node reads back the synced entry and hard state -/
+example : ∃ hu', CallPrefix hu' exHu ∧ SaveOk (exHs ++ hu') ∧ ¬ Mismatch (0, 0) (exHs ++ hu') ∧
+    ∃ R, placeCalls 0 [] (exHs ++ hu') = some R ∧
+      (readAll false (0, 0) ((syncedWriter 4096 none exHs).closed.map (·.2) ++ [exF])).metadata = none ∧
+      (readAll false (0, 0) ((syncedWriter 4096 none exHs).closed.map (·.2) ++ [exF])).state = refState (exHs ++ hu') ∧
+      (readAll false (0, 0) ((syncedWriter 4096 none exHs).closed.map (·.2) ++ [exF])).ents = R ∧
+      (readAll false (0, 0) ((syncedWriter 4096 none exHs).closed.map (·.2) ++ [exF])).err =
+        (if (0, 0) ∈ savedSnaps (exHs ++ hu') then none else some .snapNotFound) ∧
+      R.take ((refLog (exHs ++ hu')).length - 0) = (refLog (exHs ++ hu')).filter (fun e => e.index > 0) ∧
+      (NoStale 0 (exHs ++ hu') → R = (refLog (exHs ++ hu')).filter (fun e => e.index > 0)) :=
+  crash_readAll_prefix_partial 4096 none (by decide) exHs exHu
+    (by
+      intro c hc
+      simp only [exHs, exHu, List.cons_append, List.nil_append, List.mem_cons, List.not_mem_nil, or_false] at hc
+      rcases hc with rfl | rfl
+      · exact ⟨⟨by decide, by decide, by decide⟩, fun e he => by
+          simp only [List.mem_singleton] at he; subst he; exact en_fits _ _ (by decide) (by decide)⟩
+      · exact ⟨⟨by decide, by decide, by decide⟩, fun e he => by
+          simp only [List.mem_singleton] at he; subst he; exact en_fits _ _ (by decide) (by decide)⟩)
+    (show SaveOk (exHs ++ exHu) by decide) (by decide +kernel) exF ex_crash_dir (by decide +kernel) ex_gnoCollision (0, 0)
+    (show ¬ Mismatch (0, 0) (exHs ++ exHu) by decide)
+
+/-- … and evaluated directly: the synced entry 1 is there, the unsynced entry 2 is gone, no error -/
+example : (readAll false (0, 0) ((syncedWriter 4096 none exHs).closed.map (·.2) ++ [exF])).ents = [en 1 1] ∧
+    (readAll false (0, 0) ((syncedWriter 4096 none exHs).closed.map (·.2) ++ [exF])).state = ⟨1, 1, 0⟩ ∧
+    (readAll false (0, 0) ((syncedWriter 4096 none exHs).closed.map (·.2) ++ [exF])).err = none := by decide +kernel
 
 #print axioms crash_readAll_prefix_partial
 end C16
